@@ -14,9 +14,13 @@ type Gen struct {
 	r       *rand.Rand
 	steps   []Step
 	names   int
-	big     bool // thorough tier: larger sizes
-	ownVars bool // a fill value that brings its own variables was generated
-	stats   map[string]int
+	given   [][]byte        // the names handed out so far
+	recased map[string]bool // names that already have a variant differing in letter case only
+	big     bool            // thorough tier: larger sizes
+	// typedFill: no renames, no values of another kind, no values that bring variables
+	plainFill bool
+	ownVars   bool // a fill value that brings its own variables was generated
+	stats     map[string]int
 }
 
 func newGen(r *rand.Rand, big bool, stats map[string]int) *Gen {
@@ -37,7 +41,40 @@ func (g *Gen) count(k string) {
 func (g *Gen) pick(n int) int        { return g.r.Intn(n) }
 func (g *Gen) chance(p float64) bool { return g.r.Float64() < p }
 
+// swapCase changes the case of every ASCII letter
+func swapCase(n []byte) []byte {
+	out := append([]byte(nil), n...)
+	for i, b := range out {
+		if b >= 'a' && b <= 'z' {
+			out[i] = b - 32
+		} else if b >= 'A' && b <= 'Z' {
+			out[i] = b + 32
+		}
+	}
+	return out
+}
+
 func (g *Gen) freshName() []byte {
+	n := g.freshName1()
+	g.given = append(g.given, n)
+	return n
+}
+
+func (g *Gen) freshName1() []byte {
+	// now and then a name that differs from an earlier one in letter case only: names are compared byte for byte
+	if len(g.given) > 0 && g.pick(8) == 0 {
+		base := g.given[g.pick(len(g.given))]
+		if g.recased == nil {
+			g.recased = map[string]bool{}
+		}
+		v := swapCase(base)
+		if !g.recased[string(base)] && !g.recased[string(v)] && string(v) != string(base) {
+			g.recased[string(base)] = true
+			g.recased[string(v)] = true
+			g.stats["names:case-variant"]++
+			return v
+		}
+	}
 	g.names++
 	switch g.pick(5) {
 	case 0:
